@@ -85,10 +85,14 @@ def outpOfName (s : String) : OutProto :=
   | "soap11" => .soap11 | "soap12" => .soap12 | "json" => .json | "yaml" => .yaml
   | "msgpack" => .msgpack | "msgpackrpc" => .msgpackRpc | "http" => .httpRpc | _ => .xml
 
+def sigOfName (s : String) : Sig :=
+  match s with
+  | "void" => .void | "multi" => .multi | "outBare" => .outBare | _ => .single
+
 def shapeOfName (s : String) : Shape :=
   match s with
   | "void" => .void | "none" => .none | "generator" => .generator | "emptyGenerator" => .emptyGenerator
-  | "ignored" => .ignored | _ => .value
+  | "ignored" => .ignored | "multi" => .multi | _ => .value
 
 /-- registrations `[[name, h], ...]` with string event names -/
 def regsS (j : Json) (k : String) : List (String × H) :=
@@ -141,7 +145,7 @@ def worldOf (j : Json) : World :=
     | _ => (0, .other, .fault)
   { app := mgrE (getObj j "app")
     meths := descriptorManagers F (spellingOfName (getStr j "spelling")) ((getArr j "meths").toList.map mgrE)
-    svc := mgrE (getObj j "svc")
+    svc := descriptorService F (getBool j "mrpcsvc") (mgrE (getObj j "svc"))
     inProt := mgrE (getObj j "inprot")
     outProt := mgrE (getObj j "outprot")
     transport := mgrE (getObj j "trans")
@@ -177,7 +181,7 @@ def step (j : Json) : Json :=
                     Json.arr (l.map fun (h : Nat) => Json.num (JsonNumber.fromNat h)).toArray).toArray)]
   | "trace" =>
     let c : Cfg := ⟨outpOfName (getStr j "outp"), if getStr j "transport" == "wsgi" then .wsgi else .serverBase,
-                    shapeOfName (getStr j "shape")⟩
+                    shapeOfName (getStr j "shape"), sigOfName (getStr j "sig")⟩
     let w := worldOf (getObj j "world")
     let r := worldRun F c (injOf j) w
     Json.mkObj [("ok", Json.mkObj [("trace", Json.arr ((r.steps.flatMap (expand w)).map obsJson).toArray),
@@ -186,6 +190,21 @@ def step (j : Json) : Json :=
     let w := worldOf (getObj j "world")
     Json.mkObj [("ok", Json.mkObj [("trace", Json.arr (((if getBool j "fails" then F.wsdlFailSteps else F.wsdlSteps).flatMap (expand w)).map obsJson).toArray),
                                     ("escaped", Json.bool false)])]
+  | "refire" =>
+    let natOf (x : Json) : Nat := x.getNat?.toOption.getD 0
+    let s := (getArr j "s").toList.map natOf
+    let prog : List (H × List ROp) := (getArr j "prog").toList.map fun p =>
+      match p with
+      | .arr a => (natOf (a[0]?.getD Json.null),
+          ((a[1]?.getD Json.null).getArr?.toOption.getD #[]).toList.map fun o =>
+            match o with
+            | .arr b => if (b[0]?.bind (·.getStr?.toOption)).getD "" == "del" then ROp.del (natOf (b[1]?.getD Json.null))
+                        else ROp.add (natOf (b[1]?.getD Json.null))
+            | _ => ROp.add 0)
+      | _ => (0, [])
+    let w := fireReentrant (progOf prog) (getNat j "fuel") s
+    let nums (l : List H) := Json.arr (l.map fun (h : Nat) => Json.num (JsonNumber.fromNat h)).toArray
+    Json.mkObj [("ok", Json.mkObj [("calls", nums w.calls), ("live", nums w.live), ("done", Json.bool w.next.isNone)])]
   | "accepts" =>
     let t := (getArr j "t").toList.map fun s => symOfName (s.getStr?.toOption.getD "")
     Json.mkObj [("ok", stateJson (final t))]
